@@ -9,6 +9,9 @@ TRUSTED = [
     "the deterministic scheduler of the harness (one request runs at a time between parking points); SQLite standing in for the production database",
     "tools/extract/locks.go: lexical lock-state walker (an access it cannot classify fails the obligation)",
     "Go race detector for the randomised concurrent mixes",
+    "the wrapping database/sql driver of harness/kmd/c16_stall.go (delegates to go-sqlite3; numbers and holds operations) stands for a slow primary database; the hold time is the longest time.After(..) argument of storage.go as resolved by regular expressions in lib/checks/c16.py (+1.5 s, capped at 15 s quick / 40 s thorough): a longer time-out is not outlasted",
+    "tools/extract/c16_copies.go: syntactic (no type checker): lock-holding types are the package's struct declarations with a sync / atomic value field; copies made through interfaces, closures capturing a dereferenced value or reflection are not seen",
+    "the fake OAuth2 provider of the harness accepts any authorization code any number of times",
 ]
 
 YIELD = 'verifYield("%s")'
@@ -42,7 +45,7 @@ def instrument(ctx):
         f, _, line = where.partition(":")
         if f != "storage.go" and line.isdigit():
             pub.setdefault(f, {})[int(line)] = field
-    for f in sorted(set(("2fa_totp.go", "2fa_u2f.go", "unseal.go")) | set(pub)):
+    for f in sorted(set(("2fa_totp.go", "2fa_u2f.go", "unseal.go", "auth_oauth2.go")) | set(pub)):
         path = os.path.join(d, f)
         if not os.path.exists(path):
             continue
@@ -66,6 +69,104 @@ def instrument(ctx):
         overlay[path] = dst
     return overlay, counts
 
+_UNIT_MS = {"Nanosecond": 1e-6, "Microsecond": 1e-3, "Millisecond": 1.0, "Second": 1000.0, "Minute": 60000.0, "Hour": 3600000.0}
+
+def _dur_ms(expr):
+    """milliseconds of a constant duration expression (time.Second * 5, 5 * time.Second, time.Duration(3) * time.Minute, time.Second), else None"""
+    expr = expr.strip().rstrip(",;")
+    num = r"(?:time\.Duration\(\s*(\d+)\s*\)|(\d+))"
+    m = re.fullmatch(num + r"\s*\*\s*time\.(\w+)", expr)
+    if m and m.group(3) in _UNIT_MS:
+        return float(m.group(1) or m.group(2)) * _UNIT_MS[m.group(3)]
+    m = re.fullmatch(r"time\.(\w+)\s*\*\s*" + num, expr)
+    if m and m.group(1) in _UNIT_MS:
+        return float(m.group(2) or m.group(3)) * _UNIT_MS[m.group(1)]
+    m = re.fullmatch(r"time\.(\w+)", expr)
+    if m and m.group(1) in _UNIT_MS:
+        return _UNIT_MS[m.group(1)]
+    return None
+
+def storage_hold_ms(ctx):
+    """how long the stall driver holds a storage operation: longer than every time-out the storage layer
+    itself has.  Regenerated: the arguments of time.After(..) in storage.go, resolved through the constant /
+    variable / field assignments of the package; + 1.5 s.  Returns (milliseconds, what was found)."""
+    d = os.path.join(core.REPO, "cmd", "keymasterd")
+    srcs = {}
+    for f in sorted(os.listdir(d)):
+        if f.endswith(".go") and not f.endswith("_test.go"):
+            srcs[f] = open(os.path.join(d, f)).read()
+    found = {}
+    for m in re.finditer(r"time\.After\(([^()]*(?:\([^()]*\))?[^()]*)\)", srcs.get("storage.go", "")):
+        arg = m.group(1).strip()
+        v = _dur_ms(arg)
+        if v is None:
+            name = re.split(r"[.\s]", arg)[-1]
+            if re.fullmatch(r"\w+", name or ""):
+                for txt in srcs.values():
+                    for a in re.finditer(r"\b%s\s*(?::=|=)\s*([^\n]+)" % re.escape(name), txt):
+                        w = _dur_ms(a.group(1).split("//")[0])
+                        if w is not None:
+                            v = max(v or 0, w)
+        if v is not None:
+            found[arg] = v
+    longest = max(found.values()) if found else 2000.0
+    cap = 40000 if ctx.tier == "thorough" else 15000
+    return int(min(longest + 1500, cap)), found
+
+def _frame_fn(line):
+    m = re.match(r"^(\S.*)\(.*\)$", line)
+    return m.group(1) if m else line
+
+FATAL_MAP = re.compile(r"^fatal error: (concurrent map [a-z ]+)$", re.M)
+
+def absorb_fatal(ctx, log, pid="C16"):
+    """The Go runtime aborts the process when it notices two goroutines inside one map at the same time
+    ("fatal error: concurrent map writes" ...): the daemon-aborting outcome the statement names, not a broken
+    harness.  One hit with the handlers found in the goroutine dump: the goroutine that noticed, and any other
+    goroutine that is inside a map operation."""
+    m = FATAL_MAP.search(log or "")
+    if not m:
+        return 0
+    dump = log[m.end():]
+    blocks = re.split(r"\n(?=goroutine \d+ \[)", dump)
+    def handler_of(block):
+        lines = block.split("\n")
+        for i, l in enumerate(lines):
+            if l.startswith("\t") or not l.strip() or l.startswith("goroutine ") or l.startswith("created by"):
+                continue
+            loc = lines[i + 1].strip() if i + 1 < len(lines) else ""
+            base = os.path.basename(loc.split(":")[0])
+            if ("/keymaster/" in loc or loc.startswith(core.REPO)) and not base.startswith("zz_verif_") and "/go/pkg/mod/" not in loc:
+                return racelog.short_fn(_frame_fn(l.strip())), "%s:%s" % (base, loc.split(":")[1].split(" ")[0] if ":" in loc else "?")
+        return None
+    first = None
+    others = []
+    for b in blocks:
+        if not b.startswith("goroutine "):
+            continue
+        h = handler_of(b)
+        if first is None and "[running]" in b.split("\n")[0]:
+            first = h or ("?", "?")
+            continue
+        if not h:
+            continue
+        head = b.split("\n")[0]
+        if re.search(r"^(runtime\.map\w+|internal/runtime/maps\.)", b, re.M):
+            others.insert(0, h)          # inside a map operation right now
+        elif re.search(r"\[(runnable|running)", head):
+            lines = [l for l in b.split("\n")[1:] if l.strip()]
+            # executing keymaster code (the map access may be inlined into it)
+            if len(lines) > 1 and ("/keymaster/" in lines[1] or lines[1].strip().startswith(core.REPO)) and "zz_verif_" not in lines[1]:
+                others.append(h)
+    first = first or ("?", "?")
+    other = others[0] if others else ("?", "?")
+    fns = sorted([first[0], other[0]])
+    ctx.hits.append({"key": "%s:fatal-concurrent-map:%s|%s" % (pid, fns[0], fns[1]), "kind": "schedule",
+                     "oracle": "the process survives its requests: the Go runtime aborts the whole daemon when two goroutines are inside one map at once",
+                     "what": "fatal error: %s — noticed in %s (%s); another goroutine inside (or about to enter) a map operation: %s (%s)" % (m.group(1), first[0], first[1], other[0], other[1]),
+                     "case": {"sites": [list(first), list(other)]}, "observed": log[m.start():m.start() + 3000]})
+    return 1
+
 def field_writes(ctx):
     """(function, field, file:line) of the non-init rows of the regenerated shared_field_writes table"""
     p = os.path.join(ctx.work, "gen", "Tables.v")
@@ -85,22 +186,30 @@ def run(ctx):
     ctx.audit("Props.C16", ["c16_lock_discipline", "c16_handlers_disciplined", "c16_old_unlocked_delete_refuted", "c16_no_torn_profile",
                             "c16_spacing_atomic", "c16_segments_are_runs", "c16_lost_update_refuted", "c16_double_spend_refuted",
                             "c16_delete_undone_refuted", "c16_publication_safe", "c16_split_unseal_refuted",
-                            "c16_u2f_once_at_storage_granularity", "c16_u2f_double_spend_refuted", "c16_ssegments_are_runs"])
+                            "c16_u2f_once_at_storage_granularity", "c16_u2f_double_spend_refuted", "c16_ssegments_are_runs",
+                            "c16_no_write_after_answer", "c16_respond_is_last", "c16_abandoned_write_refuted",
+                            "c16_oauth_pool_disciplined", "c16_lock_copy_refuted", "c16_blocked_only_by_running_request"])
     gen = ctx.extract()
-    files = ["kmd/common.go", "kmd/creds.go", "kmd/c16.go", os.path.join(ctx.work, "gen", "mux_gen.go")]
+    files = ["kmd/common.go", "kmd/creds.go", "kmd/c16.go", "kmd/c16_stall.go", os.path.join(ctx.work, "gen", "mux_gen.go")]
     overlay, counts = instrument(ctx)
     good = counts.get("storage.go") == 3
     ctx.obligations.append(("instrumentation: parking points inserted %s" % counts, good, "storage.go needs 3"))
     if not good:
         ctx.broken.append(("correspondence", "instrumentation", "could not find LoadUserProfile/SaveUserProfile/DeleteUserProfile in storage.go: %s" % counts))
-    ok, result, log = ctx.go_harness("cmd/keymasterd", "TestVerif_C16", files, timeout=2400, extra_overlay=overlay)
+    hold, timeouts = storage_hold_ms(ctx)
+    ctx.dist["storage_timeouts_ms_found_in_storage.go"] = {k: v for k, v in timeouts.items()}
+    ctx.dist["stall_hold_ms"] = hold
+    ok, result, log = ctx.go_harness("cmd/keymasterd", "TestVerif_C16", files, timeout=2400, extra_overlay=overlay, env={"VERIF_C16_HOLD_MS": str(hold)})
     ok2, result2, log2 = ctx.go_harness("cmd/keymasterd", "TestVerif_C16Race", files, race=True, timeout=2400)
     nrace = racelog.absorb(ctx, log2, "C16")
+    nfatal = absorb_fatal(ctx, log2) + absorb_fatal(ctx, log)
+    ctx.obligations.append(("no runtime abort ('fatal error: concurrent map ...') in the concurrent rounds", nfatal == 0, "%d aborts" % nfatal))
     ctx.obligations.append(("race-detector: %s rounds of 24 concurrent requests" % ((result2 or {}).get("extra", {}).get("rounds", "?")),
                             result2 is not None and nrace == 0, "%d race reports" % nrace))
     if compile_gen(ctx, ("Tables.v",)):
         ctx.gen_obligations("Obl_C16.v", ["c16_lock_table", "c16_one_mutex_per_map", "c16_table_covers_maps",
-                                          "c16_field_writes_locked", "c16_one_mutex_per_field", "c16_field_table_covers"])
+                                          "c16_field_writes_locked", "c16_one_mutex_per_field", "c16_field_table_covers",
+                                          "c16_no_lock_copies", "c16_lock_holder_table_covers"])
     if result is not None:
         res = ctx.eval_cases(os.path.join(ctx.work, "CasesC16.v"), "CasesC16.v")
         if res is not None:
@@ -134,6 +243,12 @@ def run(ctx):
                     if i < len(lines):
                         first = lines[i]
                 ctx.broken.append(("correspondence", "c16u_mismatches", {"first_mismatch": first, "indices": (mism or "")[:400]}))
+    if os.environ.get("VERIF_SHOW_FAILED"):
+        for o in ctx.obligations:
+            if not o[1]:
+                print("# failed: %s -- %s" % (str(o[0])[:160], str(o[2])[:300]), flush=True)
+        for k, n, d in ctx.broken:
+            print("# broken: %s %s -- %s" % (k, n, str(d)[:600]), flush=True)
     ctx.assumptions = ["requests are served by one keymasterd process; several processes sharing one database are outside the model"]
     return ctx.finish("bin/build-coq; coqc Audit_Props_C16 / Obl_C16 / CasesC16 (lib/core.py); go test -overlay (instrumented storage.go) TestVerif_C16; go test -race TestVerif_C16Race",
                       COMMON_TRUSTED + TRUSTED,
